@@ -20,7 +20,7 @@ import vlib
 
 LEVEL = "proof"
 THEOREMS = [
-    "C10_hashlin_init", "C10_hashlin_insert", "C10_hashlin_remove", "C10_hashlin_loops_exit",
+    "C10_hashlin_init", "C10_hashlin_insert", "C10_hashlin_remove", "C10_hashlin_bucket", "C10_hashlin_loops_exit",
     "C10_invariant_all_histories", "C10_get_all", "C10_search_by_ski",
     "C10_add", "C10_remove", "C10_src_remove", "C10_copy", "C10_swap", "C10_notify_diff",
     "C10_callbacks", "C10_refines_all_histories", "C10_spec_is_set", "C10_refuted",
